@@ -20,6 +20,9 @@ pub(crate) const TN: usize = 18;
 /// or heap of concrete capacity TN (shared or not, stale bytes behind the end)
 fn any_small() -> (LeanString, Ghost) {
     let k: u8 = kani::any();
+    small_of(k)
+}
+fn small_of(k: u8) -> (LeanString, Ghost) {
     let (r, g) = if k == 0 {
         any_inline()
     } else if k == 1 {
@@ -88,11 +91,9 @@ impl Hasher for RecHasher {
     }
 }
 
-// @harness name=cmp_pair props=C17 class=B bound="two handles of any storage kind, texts <= 18 bytes (heap capacity 18, static object <= 20)" unwind=22 tier=quick fn=PartialEq,Eq,Ord,PartialOrd,Hash covers=cmp.equal_texts_different_storage,cmp.post_reachable timeout=1500
-#[kani::proof]
-fn cmp_pair() {
+fn cmp_pair_of(ka: u8) {
     arm_covers();
-    let (a, ag) = any_small();
+    let (a, ag) = small_of(ka);
     let (b, bg) = any_small();
     let ta = copy_text(&a, &ag);
     let tb = copy_text(&b, &bg);
@@ -112,6 +113,24 @@ fn cmp_pair() {
     cov!(true, "cmp.post_reachable");
     core::mem::forget(a);
     core::mem::forget(b);
+}
+
+// @harness name=cmp_pair_inline props=C17 class=B bound="first handle inline, second of any storage kind, texts <= 18 bytes (heap capacity 18, static object <= 20)" unwind=22 tier=quick fn=PartialEq,Eq,Ord,PartialOrd covers=cmp.post_reachable,cmp.equal_texts_different_storage timeout=1500
+#[kani::proof]
+fn cmp_pair_inline() {
+    cmp_pair_of(0);
+}
+
+// @harness name=cmp_pair_static props=C17 class=B bound="first handle static, second of any storage kind, texts <= 18 bytes (heap capacity 18, static object <= 20)" unwind=22 tier=quick fn=PartialEq,Eq,Ord,PartialOrd covers=cmp.post_reachable timeout=1500
+#[kani::proof]
+fn cmp_pair_static() {
+    cmp_pair_of(1);
+}
+
+// @harness name=cmp_pair_heap props=C17 class=B bound="first handle heap, second of any storage kind, texts <= 18 bytes (heap capacity 18, static object <= 20)" unwind=22 tier=quick fn=PartialEq,Eq,Ord,PartialOrd covers=cmp.post_reachable timeout=1500
+#[kani::proof]
+fn cmp_pair_heap() {
+    cmp_pair_of(2);
 }
 
 // two handles that point at the SAME bytes with different lengths (a clone truncated while
